@@ -91,3 +91,40 @@ fn c18_lzma2_chunk_size_clamp() {
     kani::cover!(cs < 4096, "raised to the dictionary size");
     core::mem::forget(w);
 }
+
+// C01-E: a stored (uncompressed) chunk: header layout, exactly the pending bytes are copied from the window, and the
+// flags afterwards demand a state reset from the next LZMA chunk (write_chunk has reset the encoder state before
+// storing, so a following chunk without state reset would be decoded with stale probabilities).
+//@ {"name":"c01e_lzma2_writer_raw_chunk","props":["C01","C03","C07"],"obligation":"C01-E","timeout":1500,"mem_gb":9,"functions":["enc::lzma2_writer::LZMA2Writer::write_uncompressed","lz::lz_encoder::LZEncoderData::copy_uncompressed"],"bounds":"1..=6 pending bytes (symbolic count, arbitrary content) in the window; dict_reset_needed symbolic; unwind 10","assumes":["window state as after encoding n bytes: read_pos = n-1, write_pos = n"]}
+#[kani::proof]
+#[kani::unwind(10)]
+#[kani::stub(crate::enc::encoder::LZMAEncoder::new, crate::enc::encoder::verif_stubs_enc::verif_cheap_encoder)]
+fn c01e_lzma2_writer_raw_chunk() {
+    let mut w = LZMA2Writer::new(Sink::<16>::new(), w_opts(None, None));
+    let n: usize = kani::any();
+    kani::assume(n >= 1 && n <= 6);
+    let data: [u8; 6] = kani::any();
+    let mut i = 0;
+    while i < 6 {
+        w.lzma.lz.data.buf[i] = data[i];
+        i += 1;
+    }
+    w.lzma.lz.data.read_pos = n as i32 - 1;
+    w.lzma.lz.data.write_pos = n as i32;
+    w.dict_reset_needed = kani::any();
+    w.state_reset_needed = kani::any();
+    let dr = w.dict_reset_needed;
+    assert!(w.write_uncompressed(n as u32).is_ok());
+    let s = &w.inner;
+    assert!(s.len == 3 + n, "C16-B: stored chunk = 3 header bytes + payload");
+    assert!(s.buf[0] == if dr { 1 } else { 2 }, "C03-C: stored chunk control byte");
+    assert!(s.buf[1] == 0 && s.buf[2] as usize == n - 1, "C01-E: stored chunk size field is size - 1");
+    let j: usize = kani::any();
+    kani::assume(j < n);
+    assert!(s.buf[3 + j] == data[j], "C01-E: stored chunk payload differs from the window bytes");
+    assert!(!w.dict_reset_needed);
+    assert!(w.state_reset_needed, "C01-E: after a stored chunk the next LZMA chunk must reset the coder state");
+    kani::cover!(dr, "first chunk of the stream is stored");
+    kani::cover!(n == 6, "six bytes");
+    core::mem::forget(w);
+}
